@@ -30,14 +30,42 @@ Section Benign.
   Notation quiet := (quiet num add sub mul div neg absf ltb is_nan is_inf of_int fexp flog fpow).
   Notation literal_free := (literal_free num).
 
-  (* a literal the two languages read as the same binary64 number once it meets a REAL(8) operand *)
-  Fixpoint lit_atom (e : expr) : Prop :=
+  (* LITERAL-ONLY SUBEXPRESSIONS the two languages read as the same binary64 number once they meet a REAL(8) operand:
+
+     int_atom   integer literals that fit INTEGER(4), combined by + - * (and parentheses): Python computes with ints, Fortran with
+                INTEGER(4); at each operator the integer result converts to the number the REAL(8) reading gives (for binary64 this
+                is a closed computation on the literals: sums and products of 32-bit integers below 2^53 are exact).  Integer
+                division, ** and results beyond INTEGER(4) are outside (kept findings / compile errors)
+     dec_atom   a decimal literal that is exactly representable in binary32, possibly under unary minus, abs( ) and parentheses
+                (negation and abs are exact in either precision): -1.5, abs(-0.25)                                              *)
+  Fixpoint ival (e : expr) : Z :=
+    match e with
+    | EInt z => z
+    | EPar a => ival a
+    | EBin OAdd a b => ival a + ival b
+    | EBin OSub a b => ival a - ival b
+    | EBin OMul a b => ival a * ival b
+    | _ => 0
+    end.
+  Fixpoint int_atom (e : expr) : Prop :=
     match e with
     | EInt z => int32 z = true
-    | EDec d8 d4 => d4 = d8
-    | EPar a => lit_atom a
+    | EPar a => int_atom a
+    | EBin o a b =>
+        match o with
+        | OAdd | OSub | OMul =>
+            int_atom a /\ int_atom b /\ of_int (ival (EBin o a b)) = fop o (of_int (ival a)) (of_int (ival b))
+        | _ => False
+        end
     | _ => False
     end.
+  Fixpoint dec_atom (e : expr) : Prop :=
+    match e with
+    | EDec d8 d4 => d4 = d8
+    | EPar a | ENeg a | EAbs a => dec_atom a
+    | _ => False
+    end.
+  Definition lit_atom (e : expr) : Prop := int_atom e \/ dec_atom e.
 
   Fixpoint benign (e : expr) : Prop :=
     match e with
@@ -49,7 +77,7 @@ Section Benign.
         | OPow => benign a /\ benign b
         | _ => (benign a \/ lit_atom a) /\ (benign b \/ lit_atom b) /\ (benign a \/ benign b)
         end
-    | EMM _ a b => benign a /\ benign b
+    | EMM _ a b => (benign a \/ dec_atom a) /\ (benign b \/ dec_atom b) /\ (benign a \/ benign b)     (* max(X, 0.0), min(1.5, X) *)
     end.
 
   Lemma literal_free_benign (e : expr) : literal_free e = true -> benign e.
@@ -60,23 +88,39 @@ Section Benign.
     - apply andb_true_iff in H as [Ha Hb]. auto.
   Qed.
 
+  Lemma int_atom_both catch (rdp : nat -> Z -> option num) (rdf : nat -> Z -> num) (e : expr) :
+    int_atom e ->
+    py_eval catch rdp e = inl (PI (ival e)) /\ f_eval rdf e = Some (FI (ival e)) /\ of_int (ival e) = lf_sem rdf e.
+  Proof.
+    induction e as [i k|z|d8 d4|a IHa|a IHa|o a IHa b IHb|a IHa|a IHa|a IHa|m a IHa b IHb]; cbn [int_atom]; intros H; try contradiction.
+    - cbn [FSem.py_eval FSem.f_eval FSem.lf_sem ival]. rewrite H. auto.
+    - cbn [FSem.py_eval FSem.f_eval FSem.lf_sem ival]. apply IHa. exact H.
+    - destruct o; try contradiction; destruct H as (Ha & Hb & Hh);
+        destruct (IHa Ha) as (Pa & Fa & Sa); destruct (IHb Hb) as (Pb & Fb & Sb);
+        cbn [FSem.py_eval FSem.f_eval FSem.lf_sem]; rewrite Pa, Pb, Fa, Fb; cbn [FSem.py_bin FSem.f_bin ival];
+        (split; [reflexivity|]); (split; [reflexivity|]); rewrite <- Sa, <- Sb; exact Hh.
+  Qed.
+
+  Lemma dec_atom_both catch (rdp : nat -> Z -> option num) (rdf : nat -> Z -> num) (e : expr) :
+    dec_atom e ->
+    py_eval catch rdp e = inl (PF (lf_sem rdf e)) /\ f_eval rdf e = Some (F4 (lf_sem rdf e)).
+  Proof.
+    induction e as [i k|z|d8 d4|a IHa|a IHa|o a IHa b IHb|a IHa|a IHa|a IHa|m a IHa b IHb]; cbn [dec_atom]; intros H; try contradiction.
+    - subst d4. cbn [FSem.py_eval FSem.f_eval FSem.lf_sem]. auto.
+    - destruct (IHa H) as [P F]. cbn [FSem.py_eval FSem.f_eval FSem.lf_sem]. rewrite P, F. auto.
+    - cbn [FSem.py_eval FSem.f_eval FSem.lf_sem]. apply IHa. exact H.
+    - destruct (IHa H) as [P F]. cbn [FSem.py_eval FSem.f_eval FSem.lf_sem]. rewrite P, F. auto.
+  Qed.
+
   (* an atom: both evaluators produce a value that converts to lf_sem, and neither needs the store *)
   Lemma atom_both catch (rdp : nat -> Z -> option num) (rdf : nat -> Z -> num) (e : expr) :
     lit_atom e ->
     exists pa fa, py_eval catch rdp e = inl pa /\ f_eval rdf e = Some fa /\
                   tof num of_int pa = lf_sem rdf e /\ to8 num of_int fa = lf_sem rdf e /\ is8 num fa = false.
   Proof.
-    induction e as [i k|z|d8 d4|a IHa|a IHa|o a IHa b IHb|a IHa|a IHa|a IHa|m a IHa b IHb]; cbn [lit_atom]; intros H; try contradiction.
-    - exists (PI z), (FI z). cbn [FSem.py_eval FSem.f_eval FSem.lf_sem FSem.tof FSem.to8 FSem.is8]. rewrite H. auto.
-    - subst d4. exists (PF d8), (F4 d8). cbn [FSem.py_eval FSem.f_eval FSem.lf_sem FSem.tof FSem.to8 FSem.is8]. auto.
-    - destruct (IHa H) as (pa & fa & H1 & H2 & H3 & H4 & H5). exists pa, fa.
-      cbn [FSem.py_eval FSem.f_eval FSem.lf_sem]. auto.
-  Qed.
-
-  Lemma atom_mm_quiet rd (e : expr) : lit_atom e -> mm_det rd e /\ quiet rd e /\ reads e = [].
-  Proof.
-    induction e as [i k|z|d8 d4|a IHa|a IHa|o a IHa b IHb|a IHa|a IHa|a IHa|m a IHa b IHb]; cbn [lit_atom]; intros H; try contradiction;
-      cbn [FSemFacts.mm_det FSemFacts.quiet FSem.reads]; auto.
+    intros [H|H].
+    - destruct (int_atom_both catch rdp rdf e H) as (P & F & S). exists (PI (ival e)), (FI (ival e)). cbn [FSem.tof FSem.to8 FSem.is8]. auto.
+    - destruct (dec_atom_both catch rdp rdf e H) as (P & F). exists (PF (lf_sem rdf e)), (F4 (lf_sem rdf e)). cbn [FSem.tof FSem.to8 FSem.is8]. auto.
   Qed.
 
   (* py_bin / f_bin when at least one operand is a REAL(8) value *)
@@ -155,26 +199,50 @@ Section Benign.
       cbn [FSem.py_eval FSem.f_eval FSem.lf_sem]. rewrite P, F. split; [|reflexivity].
       cbn [FSem.tof]. unfold FSem.pfloat.
       destruct Hq as [->|Hq]; [reflexivity|]. cbn [FSemFacts.quiet] in Hq. destruct Hq as (_ & Hw). rewrite Hw, andb_false_r. reflexivity.
-    - destruct Hb as [Ba Bb]. cbn [FSemFacts.mm_det] in Hmm. destruct Hmm as (Ma & Mb & Hord). cbn [FSem.reads] in Hrd.
-      destruct (IHa Ba) as [Pa Fa]; auto.
-      { intros i k H. apply Hrd. apply in_or_app. left. exact H. }
-      { destruct Hq as [Hq|Hq]; [left; exact Hq|right; apply Hq]. }
-      destruct (IHb Bb) as [Pb Fb]; auto.
-      { intros i k H. apply Hrd. apply in_or_app. right. exact H. }
-      { destruct Hq as [Hq|Hq]; [left; exact Hq|right; apply Hq]. }
-      cbn [FSem.py_eval FSem.f_eval]. rewrite Pa, Pb, Fa, Fb. split.
+    - destruct Hb as (Ba & Bb & Bab). cbn [FSemFacts.mm_det] in Hmm. destruct Hmm as (Ma & Mb & Hord). cbn [FSem.reads] in Hrd.
+      assert (Hrda : forall i k, In (i, k) (reads a) -> rdp i k = Some (rdf i k)) by (intros i k H; apply Hrd; apply in_or_app; left; exact H).
+      assert (Hrdb : forall i k, In (i, k) (reads b) -> rdp i k = Some (rdf i k)) by (intros i k H; apply Hrd; apply in_or_app; right; exact H).
+      assert (Hqa : catch = false \/ quiet rdf a) by (destruct Hq as [Hq|Hq]; [left; exact Hq|right; apply Hq]).
+      assert (Hqb : catch = false \/ quiet rdf b) by (destruct Hq as [Hq|Hq]; [left; exact Hq|right; apply Hq]).
+      assert (Ea : py_eval catch rdp a = inl (PF (lf_sem rdf a)) /\
+                   (f_eval rdf a = Some (F8 (lf_sem rdf a)) \/ (f_eval rdf a = Some (F4 (lf_sem rdf a)) /\ ~ benign a))).
+      { destruct Ba as [Ba|Ba].
+        - destruct (IHa Ba Hrda Ma Hqa) as [P F]. auto.
+        - destruct (dec_atom_both catch rdp rdf a Ba) as [P F]. split; [exact P|]. right. split; [exact F|].
+          intros Hben. destruct (IHa Hben Hrda Ma Hqa) as [_ F']. rewrite F in F'. discriminate. }
+      assert (Eb : py_eval catch rdp b = inl (PF (lf_sem rdf b)) /\
+                   (f_eval rdf b = Some (F8 (lf_sem rdf b)) \/ (f_eval rdf b = Some (F4 (lf_sem rdf b)) /\ ~ benign b))).
+      { destruct Bb as [Bb|Bb].
+        - destruct (IHb Bb Hrdb Mb Hqb) as [P F]. auto.
+        - destruct (dec_atom_both catch rdp rdf b Bb) as [P F]. split; [exact P|]. right. split; [exact F|].
+          intros Hben. destruct (IHb Hben Hrdb Mb Hqb) as [_ F']. rewrite F in F'. discriminate. }
+      destruct Ea as [Pa Fa]. destruct Eb as [Pb Fb].
+      cbn [FSem.py_eval FSem.f_eval]. rewrite Pa, Pb. split.
       + f_equal. unfold FSem.py_mm, FSem.py_lt. cbn [FSem.tof].
         pose proof (mm_same num ltb m _ _ Hord) as Hs. destruct m; cbn [FSem.lf_sem].
         * destruct (ltb (lf_sem rdf a) (lf_sem rdf b)); rewrite <- Hs; reflexivity.
         * destruct (ltb (lf_sem rdf b) (lf_sem rdf a)); rewrite <- Hs; reflexivity.
-      + cbn [FSem.f_mm FSem.to8 FSem.is8 orb]. destruct m; reflexivity.
+      + destruct Fa as [Fa|[Fa Na]]; destruct Fb as [Fb|[Fb Nb]]; rewrite Fa, Fb;
+          try (cbn [FSem.f_mm FSem.to8 FSem.is8 orb]; destruct m; reflexivity).
+        exfalso. destruct Bab as [H|H]; [exact (Na H)|exact (Nb H)].
   Qed.
   (* ---------------- Fortran's reading of a leading minus keeps the class ---------------- *)
-  Lemma regroup_atom (e : expr) : lit_atom e -> lit_atom (f_regroup e).
+  Lemma regroup_int_atom_id (e : expr) : int_atom e -> f_regroup e = e.
   Proof.
-    induction e as [i k|z|d8 d4|a IHa|a IHa|o a IHa b IHb|a IHa|a IHa|a IHa|m a IHa b IHb]; cbn [lit_atom FSem.f_regroup]; auto.
-    intros [].
+    induction e as [i k|z|d8 d4|a IHa|a IHa|o a IHa b IHb|a IHa|a IHa|a IHa|m a IHa b IHb]; cbn [int_atom FSem.f_regroup]; intros H; try contradiction; auto.
+    - rewrite IHa by exact H. reflexivity.
+    - destruct o; try contradiction; destruct H as (Ha & Hb & _); rewrite IHa, IHb by assumption; cbn [is_mul]; try reflexivity.
+      destruct a; cbn [int_atom] in Ha; try contradiction; reflexivity.
   Qed.
+  Lemma regroup_dec_atom_id (e : expr) : dec_atom e -> f_regroup e = e.
+  Proof.
+    induction e as [i k|z|d8 d4|a IHa|a IHa|o a IHa b IHb|a IHa|a IHa|a IHa|m a IHa b IHb]; cbn [dec_atom FSem.f_regroup]; intros H; try contradiction; auto;
+      rewrite IHa by exact H; reflexivity.
+  Qed.
+  Lemma regroup_atom (e : expr) : lit_atom e -> lit_atom (f_regroup e).
+  Proof. intros [H|H]; [rewrite regroup_int_atom_id by exact H; left; exact H|rewrite regroup_dec_atom_id by exact H; right; exact H]. Qed.
+  Lemma regroup_dec_atom (e : expr) : dec_atom e -> dec_atom (f_regroup e).
+  Proof. intros H. rewrite regroup_dec_atom_id by exact H. exact H. Qed.
 
   Lemma regroup_benign (e : expr) : benign e -> benign (f_regroup e).
   Proof.
@@ -194,17 +262,79 @@ Section Benign.
         { cbn [benign]. split; [apply Ha2; exact H1|]. split; [apply Hb2; exact H2|].
           destruct H3 as [H3|H3]; [left; apply IHa; exact H3|right; apply IHb; exact H3]. }
         destruct (f_regroup a) eqn:Ea; try exact G.
-        cbn [benign] in G |- *. destruct G as (G1 & G2 & G3). destruct G1 as [G1|G1]; [|cbn [lit_atom] in G1; contradiction].
-        split; [left; exact G1|]. split; [exact G2|]. left; exact G1.
+        cbn [benign] in G |- *. destruct G as (G1 & G2 & G3). destruct G1 as [G1|[G1|G1]].
+        * split; [left; exact G1|]. split; [exact G2|]. left; exact G1.
+        * cbn [int_atom] in G1. contradiction.
+        * cbn [dec_atom] in G1. split; [right; right; exact G1|]. split; [exact G2|]. exact G3.
       + (* ODiv *) destruct Hb as (H1 & H2 & H3).
         assert (G : benign (EBin ODiv (f_regroup a) (f_regroup b))).
         { cbn [benign]. split; [apply Ha2; exact H1|]. split; [apply Hb2; exact H2|].
           destruct H3 as [H3|H3]; [left; apply IHa; exact H3|right; apply IHb; exact H3]. }
         destruct (f_regroup a) eqn:Ea; try exact G.
-        cbn [benign] in G |- *. destruct G as (G1 & G2 & G3). destruct G1 as [G1|G1]; [|cbn [lit_atom] in G1; contradiction].
-        split; [left; exact G1|]. split; [exact G2|]. left; exact G1.
+        cbn [benign] in G |- *. destruct G as (G1 & G2 & G3). destruct G1 as [G1|[G1|G1]].
+        * split; [left; exact G1|]. split; [exact G2|]. left; exact G1.
+        * cbn [int_atom] in G1. contradiction.
+        * cbn [dec_atom] in G1. split; [right; right; exact G1|]. split; [exact G2|]. exact G3.
       + cbn [benign]. destruct Hb as (H1 & H2). split; [apply IHa; exact H1|apply IHb; exact H2].
-    - intros [Ha Hb]. auto.
+    - intros (Ha & Hb & Hab). split; [|split].
+      + destruct Ha as [H|H]; [left; apply IHa; exact H|right; apply regroup_dec_atom; exact H].
+      + destruct Hb as [H|H]; [left; apply IHb; exact H|right; apply regroup_dec_atom; exact H].
+      + destruct Hab as [H|H]; [left; apply IHa; exact H|right; apply IHb; exact H].
+  Qed.
+
+  (* ---------------- "the Fortran source compiles", as far as the kinds of the expressions go ---------------- *)
+  (* whatever the store holds, a benign expression has a REAL(8) value in the Fortran reading: no operator meets operands whose
+     kinds gfortran rejects (that the TEXT is well-formed Fortran is the subject of FParse / FWrap and of K) *)
+  Lemma benign_f_eval_some (e : expr) : benign e -> forall rd, exists x, f_eval rd e = Some (F8 x).
+  Proof.
+    induction e as [i k|z|d8 d4|a IHa|a IHa|o a IHa b IHb|a IHa|a IHa|a IHa|m a IHa b IHb]; cbn [benign]; intros Hb rd; try contradiction.
+    - eexists. reflexivity.
+    - destruct (IHa Hb rd) as [x Hx]. cbn [FSem.f_eval]. rewrite Hx. eexists. reflexivity.
+    - cbn [FSem.f_eval]. apply IHa. exact Hb.
+    - assert (Hab : (benign a \/ lit_atom a) /\ (benign b \/ lit_atom b) /\ (benign a \/ benign b) /\ (o = OPow -> benign a /\ benign b)).
+      { destruct o; try (destruct Hb as (H1 & H2 & H3); repeat split; auto; discriminate). destruct Hb as [H1 H2]. repeat split; auto. }
+      destruct Hab as (Ha & Hb' & Hab & Hpow).
+      assert (Va : exists fa, f_eval rd a = Some fa /\ (benign a -> exists x, fa = F8 x)).
+      { destruct Ha as [Ha|Ha].
+        - destruct (IHa Ha rd) as [x Hx]. exists (F8 x). split; [exact Hx|]. intros _. eexists. reflexivity.
+        - destruct (atom_both false (fun _ _ => None) rd a Ha) as (pa & fa & _ & H2 & _). exists fa. split; [exact H2|].
+          intros Hben. destruct (IHa Hben rd) as [x Hx]. rewrite H2 in Hx. inversion Hx. eexists. reflexivity. }
+      assert (Vb : exists fb, f_eval rd b = Some fb /\ (benign b -> exists x, fb = F8 x)).
+      { destruct Hb' as [Hb'|Hb'].
+        - destruct (IHb Hb' rd) as [x Hx]. exists (F8 x). split; [exact Hx|]. intros _. eexists. reflexivity.
+        - destruct (atom_both false (fun _ _ => None) rd b Hb') as (pb & fb & _ & H2 & _). exists fb. split; [exact H2|].
+          intros Hben. destruct (IHb Hben rd) as [x Hx]. rewrite H2 in Hx. inversion Hx. eexists. reflexivity. }
+      destruct Va as (fa & Fa & Ba). destruct Vb as (fb & Fb & Bb).
+      cbn [FSem.f_eval]. rewrite Fa, Fb.
+      assert (His8 : is8 num fa || is8 num fb = true).
+      { destruct Hab as [H|H]; [destruct (Ba H) as [x ->]; reflexivity|destruct (Bb H) as [x ->]; cbn [FSem.is8]; apply orb_true_r]. }
+      destruct o; try (rewrite f_bin_8; [eexists; reflexivity|discriminate|exact His8]).
+      destruct (Hpow eq_refl) as [H1 H2]. destruct (Ba H1) as [x ->]. destruct (Bb H2) as [y ->]. eexists. reflexivity.
+    - destruct (IHa Hb rd) as [x Hx]. cbn [FSem.f_eval]. rewrite Hx. eexists. reflexivity.
+    - destruct (IHa Hb rd) as [x Hx]. cbn [FSem.f_eval]. rewrite Hx. eexists. reflexivity.
+    - destruct (IHa Hb rd) as [x Hx]. cbn [FSem.f_eval]. rewrite Hx. eexists. reflexivity.
+    - destruct Hb as (Ha & Hb & Hab).
+      assert (Va : (exists x, f_eval rd a = Some (F8 x)) \/ ((exists x, f_eval rd a = Some (F4 x)) /\ ~ benign a)).
+      { destruct Ha as [Ha|Ha]; [left; apply IHa; exact Ha|].
+        destruct (dec_atom_both false (fun _ _ => None) rd a Ha) as [_ F]. right. split; [eexists; exact F|].
+        intros Hben. destruct (IHa Hben rd) as [x Hx]. rewrite F in Hx. discriminate. }
+      assert (Vb : (exists x, f_eval rd b = Some (F8 x)) \/ ((exists x, f_eval rd b = Some (F4 x)) /\ ~ benign b)).
+      { destruct Hb as [Hb|Hb]; [left; apply IHb; exact Hb|].
+        destruct (dec_atom_both false (fun _ _ => None) rd b Hb) as [_ F]. right. split; [eexists; exact F|].
+        intros Hben. destruct (IHb Hben rd) as [x Hx]. rewrite F in Hx. discriminate. }
+      cbn [FSem.f_eval].
+      destruct Va as [[x Hx]|[[x Hx] Na]]; destruct Vb as [[y Hy]|[[y Hy] Nb]]; rewrite Hx, Hy;
+        try (cbn [FSem.f_mm FSem.to8 FSem.is8 orb]; destruct m; eexists; reflexivity).
+      exfalso. destruct Hab as [H|H]; [exact (Na H)|exact (Nb H)].
+  Qed.
+
+  (* a program of benign equations is accepted: FSem.f_compiles = true *)
+  Theorem benign_compiles (prog : list (eqn num)) :
+    Forall (fun q => benign (snd q)) prog ->
+    f_compiles num add sub mul div neg absf ltb of_int fexp flog fpow round4 exp4 log4 pow4 zero one prog = true.
+  Proof.
+    intros H. unfold f_compiles. apply forallb_forall. intros q Hq. rewrite Forall_forall in H.
+    destruct (benign_f_eval_some (f_regroup (snd q)) (regroup_benign (snd q) (H q Hq)) (fun _ _ => zero)) as [x ->]. reflexivity.
   Qed.
 
   Lemma regroup_reads_in (e : expr) ik : In ik (reads (f_regroup e)) <-> In ik (reads e).
@@ -215,6 +345,26 @@ Section Benign.
       + destruct (f_regroup a) eqn:Ea; cbn [FSem.reads] in *; rewrite !in_app_iff in *; tauto.
       + cbn [FSem.reads]. rewrite !in_app_iff. tauto.
     - rewrite !in_app_iff. tauto.
+  Qed.
+
+  Notation neg_sym := (neg_sym num add sub mul div neg absf ltb of_int fexp flog fpow).
+
+  (* THE agreement theorem on the common subset, with the sign symmetry asked only at the values the expression meets *)
+  Theorem benign_agree_local catch (rdp : nat -> Z -> option num) (rdf : nat -> Z -> num) (e : expr) :
+    benign e ->
+    (forall i k, In (i, k) (reads e) -> rdp i k = Some (rdf i k)) ->
+    mm_det rdf e -> neg_sym rdf e ->
+    (catch = false \/ quiet rdf e) ->
+    py_eval catch rdp e = inl (PF (lf_sem rdf e)) /\ f_eval rdf (f_regroup e) = Some (F8 (lf_sem rdf e)).
+  Proof.
+    intros Hb Hrd Hmm Hns Hq. split.
+    - apply (benign_both catch rdp rdf e Hb Hrd Hmm Hq).
+    - rewrite <- (regroup_sem_local num add sub mul div neg absf ltb of_int fexp flog fpow rdf e Hns).
+      apply (benign_both false rdp rdf (f_regroup e)).
+      + apply regroup_benign. exact Hb.
+      + intros i k H. apply Hrd. apply regroup_reads_in. exact H.
+      + apply (regroup_mm_det_local num add sub mul div neg absf ltb of_int fexp flog fpow); assumption.
+      + left. reflexivity.
   Qed.
 
   Section Regroup.
